@@ -148,19 +148,19 @@ def marker_after_codec(ctx: Ctx, v: LocalView, rule: str) -> int:
     doms = [d for s in ser for d in done_nodes(cfg, s)]
     n = 0
     for p in pubs:
-        if p.func is not f:
+        if p.root_func is not f:
             continue
         n += 1
         desc = f"publication of {show(p.term)} happens only after serialisation completed normally"
-        w = dominated(ctx, f, p.node, doms)
+        w = dominated(ctx, f, p.root_node, doms)
         if w is None:
             rep.ok(rule, f.qname, desc, p.where())
         else:
             rep.bad(rule, f.qname, desc, p.where(), w, stmt_key(p.node), what="a name is published although serialisation did not complete")
     # order of publications: blob before marker
     for a, b in zip(pubs, pubs[1:]):
-        if a.func is f and b.func is f:
-            w = dominated(ctx, f, b.node, done_nodes(cfg, a.node))
+        if a.root_func is f and b.root_func is f and a.root_node is not b.root_node:
+            w = dominated(ctx, f, b.root_node, done_nodes(cfg, a.root_node))
             desc = f"{show(a.term)} is published before {show(b.term)}"
             if w is None:
                 rep.ok(rule, f.qname, desc, b.where())
@@ -181,10 +181,10 @@ def store_always_publishes(ctx: Ctx, v: LocalView, rule: str) -> int:
         return 0
     last = pubs[-1]
     desc = "store_blob returns normally only after publishing the commit marker (or after seeing the complete entry)"
-    if last.func is not f:
-        rep.unknown(rule, f.qname, "the commit marker is published by a helper: must-pass-through not evaluated", f.loc())
+    if last.root_func is not f:
+        rep.unknown(rule, f.qname, "the commit marker is published by a helper of a helper: must-pass-through not evaluated", f.loc())
         return 1
-    marker_nodes = cfg.nodes_of(last.node)
+    marker_nodes = cfg.nodes_of(last.root_node)
     p = cfg.find_path([cfg.entry], [cfg.exit], avoid=marker_nodes)
     if p is None:
         rep.ok(rule, f.qname, desc, last.where())
@@ -570,4 +570,50 @@ def independent_views(ctx: Ctx, v: LocalView, rule: str) -> int:
         else:
             rep.bad(rule, v.cls.qname, desc, where, [f"internal attrs {internal}, data attrs {data}; term {show(t)}"], f"view:{show(t)}",
                     what="blob / path locations mix the internal and the data directory")
+    return n
+
+
+def no_shared_removal(ctx: Ctx, v: LocalView, rule: str) -> int:
+    """no store code removes a name it did not create in the same call (another process may be using it)"""
+    rep = ctx.report
+    n = 0
+    for method, effs in list(v.eff.items()) + [("__init__", v.init)]:
+        for e in _dedupe([x for x in effs if x.kind in ("REMOVE", "RMTREE")]):
+            n += 1
+            own = bool(unique_sources(e.term) & set(REAL_UNIQUE))
+            desc = f"{e.kind}({show(e.term)}) only removes a name this call created itself"
+            if own:
+                rep.ok(rule, _site(v, method), desc, e.where())
+            else:
+                rep.bad(rule, _site(v, method), desc, e.where(), [f"{e.where()}: {e!r}" ] + e.via + [
+                    "the name can belong to another process (a committed entry, or a temporary file between its write and its rename): that process "
+                    "then fails with FileNotFoundError, or a reader finds the entry gone"], f"rm:{method}:{show(e.term)}", what=f"{method} removes files it does not own")
+    if n == 0:
+        rep.ok(rule, v.cls.qname, "the store removes no file or directory", v.func("store_blob").loc())
+    return n
+
+
+def rename_after_close(ctx: Ctx, v: LocalView, rule: str) -> int:
+    """a temporary is renamed into place only after the file object that writes it was closed"""
+    rep = ctx.report
+    n = 0
+    for f in [g for g in ctx.prog.funcs.values() if g.module is v.cls.module]:
+        for w in [x for x in f.own_nodes() if isinstance(x, ast.With)]:
+            opened = []
+            for it in w.items:
+                c = it.context_expr
+                if isinstance(c, ast.Call) and unparse(c.func) == "open" and c.args and len(c.args) > 1 and isinstance(c.args[1], ast.Constant) and any(ch in str(c.args[1].value) for ch in "wax"):
+                    opened.append(unparse(c.args[0]))
+            if not opened:
+                continue
+            n += 1
+            inside = [x for x in ast.walk(ast.Module(body=w.body, type_ignores=[])) if isinstance(x, ast.Call) and unparse(x.func) in ("os.replace", "os.rename", "shutil.move")
+                      and x.args and unparse(x.args[0]) in opened]
+            desc = f"the file written under `{opened[0]}` is closed before it is renamed into place"
+            if inside:
+                rep.bad(rule, f.qname, desc, f.loc(inside[0]), [f"{f.loc(inside[0])}: `{unparse(inside[0], 60)}` inside the `with open(...)` block that writes the file",
+                        "the name is published while the content is still buffered: a kill between the rename and the close leaves an empty / truncated file under the final name"],
+                        stmt_key(inside[0]), what="a temporary is renamed into place before it is flushed and closed")
+            else:
+                rep.ok(rule, f.qname, desc, f.loc(w))
     return n
